@@ -263,8 +263,8 @@ func (w *c19World) doOp(run *mon.Run, r *rand.Rand, op int, local [2]hash.Hasher
 
 // c19Core: storms of the listed operations over shared objects.
 func c19Core(run *mon.Run) {
-	calls := run.Pick(6000, 200000)
-	reps := run.Pick(1, 5)
+	calls := run.Pick(6000, 60000)
+	reps := run.Pick(1, 3)
 	if os.Getenv("VERIF_C19_SCALE") != "" {
 		var f float64
 		fmt.Sscan(os.Getenv("VERIF_C19_SCALE"), &f)
@@ -339,8 +339,12 @@ func c19Core(run *mon.Run) {
 func C19(run *mon.Run) {
 	run.Rule = "goroutine storms (G in {2,8,32}) picking from KMAC128 ComputeHash on one hasher, BLS Sign/Verify/BLSVerifyPOP/SPOCKVerify/aggregate/batch verification sharing keys and one expand_message hasher, ECDSA Sign/Verify sharing keys with per-goroutine hashers; every result compared with a table computed sequentially; all argument buffers, key encodings and hasher states fingerprinted before and after; run in the default build and under the race detector; shape = (goroutine count, repetition) and (operation)"
 	run.Assumptions = []string{"PublicKey() and BLSGeneratePOP are called before the concurrent phase (their lazy caching is not in the property's list)", "the race detector does not see memory accesses made by C code; a C-side race would have to show through the result-equality monitor"}
-	run.RunChild(os.Getenv("VERIF_BIN"), "c19core", "default", 40*time.Minute)
-	raceChild(run, "c19core", 40*time.Minute)
+	run.RunChild(os.Getenv("VERIF_BIN"), "c19core", "default", 90*time.Minute)
+	if run.Quick() {
+		raceChild(run, "c19core", 40*time.Minute)
+	} else {
+		raceChild(run, "c19core", 180*time.Minute, "VERIF_C19_SCALE=0.25")
+	}
 	run.Require(run.Counter("default.storms") >= 3, "default build ran fewer than 3 storms")
 	run.Require(run.Counter("race.storms") >= 3, "race build ran fewer than 3 storms")
 	run.Sample(map[string]any{"operations": c19Ops, "goroutine_counts": []int{2, 8, 32}})
